@@ -50,7 +50,7 @@ def main():
         return 2
     status = {}
     try:
-        demo = os.path.join(d, meta.get("demo", "demo.py"))
+        demo = os.path.join(d, meta.get("demo") or "demo.py")
         launcher = meta.get("launcher", "mlboot")
         env = dict(os.environ, PYTHONDONTWRITEBYTECODE="1")
 
